@@ -34,6 +34,36 @@ type MergeCase struct {
 	Script []string `json:"script,omitempty"`
 	// Caps is a SetReferrersCapability sequence (K case) when non-nil.
 	Caps []bool `json:"caps,omitempty"`
+	// systematic exploration (replays use Script)
+	Explore   bool  `json:"-"`
+	Choices   []int `json:"-"`
+	MaxFail   int   `json:"-"`
+	optCounts []int
+}
+
+// exploreMerge enumerates every schedule (start order x release order x failures,
+// at most maxFail failures) of n callers, up to limit runs.
+func exploreMerge(t *testing.T, n, maxFail, limit int) int {
+	var choices []int
+	runs := 0
+	for runs < limit {
+		c := &MergeCase{N: n, Explore: true, Choices: choices, MaxFail: maxFail}
+		mergeCase(t, c)
+		runs++
+		// odometer: advance the last position that still has an untried option
+		cur := make([]int, len(c.optCounts))
+		copy(cur, choices)
+		i := len(cur) - 1
+		for i >= 0 && cur[i]+1 >= c.optCounts[i] {
+			i--
+		}
+		if i < 0 {
+			break
+		}
+		cur[i]++
+		choices = cur[:i+1]
+	}
+	return runs
 }
 
 func genMerge(r *common.Rand, thorough bool) *MergeCase {
@@ -201,6 +231,7 @@ func mergeCase(t *testing.T, c *MergeCase) {
 		sched := common.NewRand(c.Seed)
 		next := 0
 		spos := 0
+		cpos := 0
 		for {
 			synctest.Wait()
 			mu.Lock()
@@ -254,8 +285,45 @@ func mergeCase(t *testing.T, c *MergeCase) {
 					run.Finish()
 					os.Exit(0)
 				}
-				k := sched.Intn(opts)
-				if k < len(ps) {
+				var k int
+				if c.Explore {
+					// systematic exploration: the option list is (gate, ok), (gate, fail)
+					// per parked call (fail only while the budget lasts), then "start"
+					nf := 0
+					for _, e := range events {
+						if strings.HasSuffix(e, ":1") {
+							nf++
+						}
+					}
+					per := 1
+					if nf < c.MaxFail {
+						per = 2
+					}
+					total := len(ps) * per
+					if next < c.N {
+						total++
+					}
+					ch := 0
+					if cpos < len(c.Choices) {
+						ch = c.Choices[cpos]
+					}
+					cpos++
+					c.optCounts = append(c.optCounts, total)
+					if ch >= total {
+						ch = 0
+					}
+					if ch < len(ps)*per {
+						k = ch / per
+						pick = ps[k]
+						fail = ch%per == 1
+					} else {
+						k = len(ps)
+					}
+				} else {
+					k = sched.Intn(opts)
+				}
+				if pick != nil {
+				} else if k < len(ps) {
 					pick = ps[k]
 					fail = sched.Intn(100) < c.FailPct
 				} else {
